@@ -274,6 +274,18 @@ def load_known():
     return json.load(open(p))
 
 
+def attribute_rules(core, prop, prefix):
+    """Signature of an optimizer disagreement from the rules whose single denial restores agreement (`core`; each of them is
+    therefore *necessary* for this witness: with it denied and all others enabled the answers agree). When one of the necessary
+    rules is a rewrite with an open finding of its own (a rule that is unsound by itself, `<prefix><rule>`), the witness is an
+    instance of that finding whatever other rules had to prepare the match; otherwise the signature names the whole set."""
+    known = {k["signature"][len(prefix):] for k in load_known().get("open", []) if k["property"] == prop and k["signature"].startswith(prefix)}
+    for c in sorted(core):
+        if c in known:
+            return prefix + c
+    return None
+
+
 class Report:
     def __init__(self, prop, tier, seed, level):
         self.prop = prop
